@@ -278,7 +278,11 @@ impl<T: RTreeElement + std::clone::Clone> RTree<T> {
                 SearchNode::TreeNode(tree) => (1u8, boxed(&tree.bbox), tree.index),
             })
             .collect();
-        let leaves = self.leaf_nodes.iter().map(|leaf| boxed(leaf.bbox())).collect();
+        let leaves = self
+            .leaf_nodes
+            .iter()
+            .map(|leaf| boxed(leaf.bbox()))
+            .collect();
         (nodes, self.level_ends.clone(), leaves)
     }
 
